@@ -28,6 +28,8 @@ import threading
 import time
 
 VERIF = os.path.dirname(os.path.dirname(os.path.abspath(__file__)))
+# evidence/ and replays/ go under VERIF_OUT (default: /verif); redirected when a seeded change is being tried
+OUT = os.environ.get("VERIF_OUT", VERIF)
 REPO = os.environ.get("VERIF_REPO", "/repo")
 SCRATCH_ROOT = os.environ.get("VERIF_SCRATCH", "/var/tmp/sudachi-verif")
 
@@ -65,7 +67,7 @@ class Harness:
     def __init__(self, name, module, functions, bound, kernel="", assumptions=(),
                  stubs=(), tiers=("quick", "thorough"), timeout_s=900, mem_gb=12,
                  cbmc_args=(), required=True, package="sudachi", outside=(),
-                 shape=None, fs_array=False, finding=None):
+                 shape=None, fs_array=False, finding=None, replay_alt=None):
         self.name = name
         self.module = module
         self.functions = list(functions)
@@ -84,6 +86,9 @@ class Harness:
         self.outside = list(outside)
         self.shape = shape
         self.finding = finding  # id in known_findings.json whose region this twin assumes
+        # name of a sibling harness with the same assertions at a smaller bound, used only to obtain a native replay
+        # when Kani's concrete-playback run of this harness exceeds its memory cap (playback disables formula slicing)
+        self.replay_alt = replay_alt
         self.result = None
 
 
@@ -299,6 +304,14 @@ class Ctx:
     # native generator step (tables produced by the repository's own builder code)
     def run_gen(self, args, timeout=900, verif_cfg=False):
         gen_dir = os.path.join(VERIF, "gen")
+        if REPO != "/repo":
+            # checking a copy of the repository (VERIF_REPO): the generator's path dependency must follow
+            alt = os.path.join(self.scratch, "gen-src")
+            if not os.path.isdir(alt):
+                shutil.copytree(gen_dir, alt, ignore=shutil.ignore_patterns("target", "Cargo.lock"))
+                ct = open(os.path.join(alt, "Cargo.toml")).read().replace('path = "/repo/sudachi"', 'path = "%s/sudachi"' % REPO)
+                open(os.path.join(alt, "Cargo.toml"), "w").write(ct)
+            gen_dir = alt
         env = dict(self.env)
         if verif_cfg:
             env["RUSTFLAGS"] = (env.get("RUSTFLAGS", "") + " --cfg sudachi_verif").strip()
@@ -365,6 +378,7 @@ def prepare(ctx, spec, findings):
         wrapped = t
         with open(os.path.join(ctx.hdir, mod + ".rs"), "w") as f:
             f.write(wrapped)
+    ctx.alts = {h.name: h for h in harnesses if "replay-only" in h.tiers}
     return [h for h in harnesses if ctx.tier in h.tiers]
 
 
@@ -443,7 +457,7 @@ MAX_REPLAYS = 3
 def gen_playback_test(ctx, h):
     """Ask Kani for the concrete values of the first failing check -> (test name, test source, values) or None."""
     cmd = ctx.kani_cmd(h, ["-Z", "concrete-playback", "--concrete-playback=print"])
-    rc, out, to, dt = run_cmd(cmd, REPO, ctx.env, h.timeout_s * 2 + 120, max(24, 3 * h.mem_gb),
+    rc, out, to, dt = run_cmd(cmd, REPO, ctx.env, min(h.timeout_s * 2 + 120, 1200), max(40, 3 * h.mem_gb),
                               os.path.join(ctx.logs, h.name + ".playback-gen.log"))
     tests = re.findall(r"```\n(.*?)```", out, re.S)
     failing = [t for t in tests if "Check for `cover`" not in t]
@@ -487,8 +501,18 @@ def playback_batch(ctx, failed):
     todo = failed[:MAX_REPLAYS]
     gens = {}
     threads = []
+    def gen_with_alt(h):
+        g = gen_playback_test(ctx, h)
+        alt = getattr(ctx, "alts", {}).get(h.replay_alt) if h.replay_alt else None
+        if g is None and alt is not None:
+            log("   playback of %s could not be generated; trying its smaller sibling %s" % (h.name, alt.name))
+            g = gen_playback_test(ctx, alt)
+            if g is not None:
+                h.replayed_through = alt.name
+        return g
+
     for h in todo:
-        t = threading.Thread(target=lambda h=h: gens.__setitem__(h.name, gen_playback_test(ctx, h)))
+        t = threading.Thread(target=lambda h=h: gens.__setitem__(h.name, gen_with_alt(h)))
         t.start()
         threads.append(t)
     for t in threads:
@@ -514,7 +538,8 @@ def playback_batch(ctx, failed):
         for h, g in items:
             rep, panic = res[g[0]]
             out[h.name] = (rep, {"test": g[0], "concrete_vals": g[2], "profile": "dev (debug assertions on)",
-                                 "reproduced": rep, "panic": panic})
+                                 "reproduced": rep, "panic": panic,
+                                 "replayed_harness": getattr(h, "replayed_through", h.name)})
     return out
 
 
@@ -533,7 +558,7 @@ def decide(prop, tier, seed, keep=False, only=None, jobs=None):
     note = None
     try:
         harnesses = prepare(ctx, spec, findings)
-        shutil.rmtree(os.path.join(VERIF, "replays", prop), ignore_errors=True)
+        shutil.rmtree(os.path.join(OUT, "replays", prop), ignore_errors=True)
         if only:
             harnesses = [h for h in harnesses if any(o in h.name for o in only)]
         log("== %s tier=%s seed=%d: %d harnesses; building /repo working tree with Kani" % (prop, tier, seed, len(harnesses)))
@@ -578,20 +603,37 @@ def decide(prop, tier, seed, keep=False, only=None, jobs=None):
                     rep, info = pb[h.name]
                     r["replay"] = info
                     if rep:
-                        os.makedirs(os.path.join(VERIF, "replays", prop), exist_ok=True)
-                        rp = os.path.join(VERIF, "replays", prop, h.name + ".json")
-                        json.dump({"property": prop, "harness": h.name, "module": h.module, "package": h.package,
+                        os.makedirs(os.path.join(OUT, "replays", prop), exist_ok=True)
+                        rp = os.path.join(OUT, "replays", prop, h.name + ".json")
+                        json.dump({"property": prop, "harness": info.get("replayed_harness", h.name), "found_by": h.name, "module": h.module, "package": h.package,
                                    "tier": tier, "seed": seed, "failed_checks": r["failed_checks"], "replay": info,
                                    "harness_file": os.path.join("kani", prop, h.module + ".rs"),
                                    "how": "bin/check %s --replay %s" % (prop, rp)}, open(rp, "w"), indent=1)
                         lines.append("VIOLATION property=%s replay=%s" % (prop, rp))
                         replays.append(rp)
                         status = 1
-                    else:
+                    elif rep is False:
                         r["verdict"] = "inconclusive"
                         r["reason"] = "counterexample did not reproduce natively (harness/stub/model suspect)"
                         if status == 0:
                             status = 2
+                    else:
+                        # The solver found a counterexample in the compiled code, but Kani's concrete-playback run (which
+                        # disables formula slicing) exceeded its time/memory cap, so no native test exists.  The harness
+                        # passes on the unchanged tree, so this is reported, marked as solver-only; --replay re-decides it.
+                        os.makedirs(os.path.join(OUT, "replays", prop), exist_ok=True)
+                        rp = os.path.join(OUT, "replays", prop, h.name + ".json")
+                        json.dump({"property": prop, "harness": h.name, "found_by": h.name, "module": h.module, "package": h.package,
+                                   "tier": tier, "seed": seed, "failed_checks": r["failed_checks"],
+                                   "replay": {"native_replay": "unavailable", "reason": str(info.get("reason", info.get("panic", "")))[:400],
+                                              "kind": "solver counterexample in the goto program compiled from /repo (not replayed natively)"},
+                                   "harness_file": os.path.join("kani", prop, h.module + ".rs"),
+                                   "how": "bin/check %s --replay %s  (re-runs the harness with the solver on the current tree)" % (prop, rp)},
+                                  open(rp, "w"), indent=1)
+                        r["reason"] = "solver counterexample; native replay unavailable (playback generation exceeded its cap)"
+                        lines.append("VIOLATION property=%s replay=%s" % (prop, rp))
+                        replays.append(rp)
+                        status = 1
                 else:
                     r["replay"] = {"reason": "not replayed (replay budget %d per run); solver counterexample only" % MAX_REPLAYS}
                     if not any_reproduced and status == 0:
@@ -666,15 +708,24 @@ def write_evidence(ctx, spec, harnesses, wall, build_s, status, replays, note):
             "exit_status": status, "replays": replays, "note": note,
         },
     }
-    os.makedirs(os.path.join(VERIF, "evidence"), exist_ok=True)
-    tmp = os.path.join(VERIF, "evidence", ".%s.json.tmp" % ctx.prop)
+    os.makedirs(os.path.join(OUT, "evidence"), exist_ok=True)
+    tmp = os.path.join(OUT, "evidence", ".%s.json.tmp" % ctx.prop)
     json.dump(ev, open(tmp, "w"), indent=1)
-    os.replace(tmp, os.path.join(VERIF, "evidence", ctx.prop + ".json"))
+    os.replace(tmp, os.path.join(OUT, "evidence", ctx.prop + ".json"))
 
 
 def replay_file(prop, path):
     """Re-run a stored counterexample (concrete harness inputs) against /repo's current tree."""
     rp = json.load(open(path))
+    if rp.get("replay", {}).get("native_replay") == "unavailable":
+        log("no native test was recorded for this counterexample: re-deciding harness %s with the solver on the current tree" % rp["harness"])
+        os.environ["VERIF_OUT"] = os.path.join(SCRATCH_ROOT, "replay-out")
+        global OUT
+        OUT = os.environ["VERIF_OUT"]
+        st = decide(prop, rp.get("tier", "quick"), rp.get("seed", 0), only=[rp["harness"]])
+        if st == 1:
+            log("VIOLATION property=%s replay=%s" % (prop, path))
+        return st
     spec = load_spec(prop)
     ctx = Ctx(prop, rp.get("tier", "quick"), rp.get("seed", 0), suffix=".replay")
     try:
